@@ -232,6 +232,7 @@ pub fn parse_real_errors(message: &str) -> Vec<(String, Vec<String>)> {
             rest.strip_prefix("` at `").and_then(|r| r.find('`').map(|e| ("badext".to_owned(), vec![r[..e].to_owned()])))
         })
     });
+    scan("unable to require resource without an extension at `", &mut |_, after| tick(after).map(|(p, _)| ("badext".to_owned(), vec![p])));
     for label in ["json", "yaml", "toml"] {
         // `unable to read json data: <message> (while reading `<path>`)`
         scan(&format!("unable to read {} data", label), &mut |_, after| {
